@@ -61,10 +61,15 @@ def oracle_script(args):
         k, x, src = op[:3]
         how = op[3] if len(op) > 3 else "model"
         x = np.array(x, dtype=np.float64)
+        x_caller = np.array(x)                       # the array the caller owns and hands over
         if how == "chained" and src is not None:
-            el = results[src].update(x, electronics=results[src])
+            el = results[src].update(x_caller, electronics=results[src])
         else:
-            el = model.update(x, electronics=results[src] if src is not None else None)
+            el = model.update(x_caller, electronics=results[src] if src is not None else None)
+        if args.get("move_on"):
+            # the caller advances ITS position array in place afterwards (`self.position += v dt`, `xx[i] = x` in surface.py):
+            # what was returned for the point must not follow it
+            x_caller += 0.37
         # (a)
         if src is not None and spec.get("representation") != "diabatic":
             ov = np.sum(np.asarray(el._reference) * np.asarray(frozen[src][0]["_reference"]), axis=0)
@@ -133,6 +138,9 @@ def run(ctx):
         if name == "shin-metiu":
             ops = ops[:6]
         a = {"spec": spec, "ops": [list(o) for o in ops]}
+        if i % 2 == 1:
+            a["move_on"] = True
+            ctx.count("scripts_where_the_caller_moves_its_position_array_on")
         if i % 3 == 2:
             a["precompute"] = [float(v) for v in c05.random_position(rng, model, name)]
             ctx.count("scripts_with_direct_compute_first")
